@@ -146,9 +146,20 @@ def expectedDeser (O : Oracles) (opts : DeserOpts) (cls : FieldDecl) (d : PyVal)
 
 /-! ### the fragment on which "deserialization = constructor ∘ documented lifting" is proved -/
 
+/-- scalar declarations whose deserialization hands the document value on unchanged (every scalar
+    but an Enum over an enum class, whose names become members) -/
+def idScalar : FieldDecl → Bool
+  | .number _ => true
+  | .integer _ => true
+  | .float _ => true
+  | .string _ _ _ => true
+  | .boolean => true
+  | .enumLit _ => true
+  | _ => false
+
 mutual
-/-- scalars with every constraint, enums, Array / Deque / Tuple (homogeneous or positional, without
-    uniqueItems) and nested Structure classes, at any depth -/
+/-- scalars with every constraint, enums, Array / Deque / Tuple (homogeneous — with uniqueItems when
+    the items are plain scalars — or positional) and nested Structure classes, at any depth -/
 def exactDecl : FieldDecl → Bool
   | .number _ => true
   | .integer _ => true
@@ -157,9 +168,9 @@ def exactDecl : FieldDecl → Bool
   | .boolean => true
   | .enumLit _ => true
   | .enumCls _ _ => true
-  | .seqOf _ f sz => !sz.uniq && exactDecl f
+  | .seqOf _ f sz => (!sz.uniq || idScalar f) && exactDecl f
   | .seqPos _ fs _ sz => !sz.uniq && exactAll fs
-  | .tupleOf f u => !u && exactDecl f
+  | .tupleOf f u => (!u || idScalar f) && exactDecl f
   | .tuplePos fs u => !u && exactAll fs
   | .struct c fields _ =>
     !c.inline && c.accepts.contains c.name && decide ((fields.map (·.1)).Nodup) && exactFields fields
